@@ -131,6 +131,42 @@ def state_classes(f, b, state_field):
     ra = RangeAnalysis(f, b, xk, 8, dom, entries=[entry], stop=reads, opaque_ok=True, N=256)
     SF = ('fld', ('deref', ('loc', 1)), state_field)
     out = {}
+    # per-state evaluation: with the state fixed, every match on it takes one arm, wherever in the body the matches are (a test
+    # hoisted in front of the dispatch, `if b == 0x1B && matches!(state, A | B) { .. }`, is attributed to the right states)
+    adt_name = None
+    for nm_, a_ in f.adts.items():
+        if a_.get('kind') == 'enum' and b.raw.get('impl_self') and nm_.split('::')[0] == b.raw.get('impl_self').split('::')[0]:
+            for st_ in ('struct',):
+                pass
+    sty = None
+    sa = f.adts.get(b.raw.get('impl_self') or '')
+    if sa:
+        for v_ in sa.get('variants', []):
+            for fd_ in v_.get('fields', []):
+                if fd_['name'] == state_field:
+                    sty = fd_['ty']
+    states = [v_['name'] for v_ in f.adts.get(sty, {}).get('variants', [])] if sty in f.adts else []
+    per_state = {}
+    for s_name in states:
+        per_state[s_name] = RangeAnalysis(f, b, xk, 8, dom, entries=[entry], stop=reads, opaque_ok=True, N=256, assume_variant={SF: s_name})
+    for bi, blk in enumerate(b.blocks):
+        if bi in reads:
+            continue
+        # only blocks whose execution depends on the state: the bytes that reach them differ between states (a block every state
+        # reaches with the same bytes is common code, not part of any state's classification)
+        rs_ = [repr(per_state[s_].reach_of(bi) & dom) for s_ in states]
+        if len(set(rs_)) <= 1:
+            continue
+        for s_name in (states or [None]):
+            if s_name is None:
+                break
+            reach = per_state[s_name].reach_of(bi) & dom
+            if not reach:
+                continue
+            arm = out.setdefault(s_name, {})
+            _collect(b, bi, blk, r, arm, reach, state_field, xkey)
+    if states:
+        return out, ra.mixed
     for bi, blk in enumerate(b.blocks):
         reach = ra.reach_of(bi) & dom
         if not reach or bi in reads:
@@ -139,6 +175,12 @@ def state_classes(f, b, state_field):
         if len(st) != 1:
             continue
         arm = out.setdefault(st[0], {})
+        _collect(b, bi, blk, r, arm, reach, state_field, xkey)
+    return out, ra.mixed
+
+
+def _collect(b, bi, blk, r, arm, reach, state_field, xkey):
+    if True:
 
         def add(k):
             arm[k] = arm.get(k, ISet()) | reach
@@ -170,7 +212,6 @@ def state_classes(f, b, state_field):
                     add((w, a[1]))
                 else:
                     add((w, 'expr'))
-    return out, ra.mixed
 
 
 def validator_reject_set(f, fn):
